@@ -745,7 +745,7 @@ func run(c *core.Ctx) error {
 	par(func() error {
 		hcfgs := []string{"NestedIndex_enum_quick.cfg", "NestedIndex_enum_quick1.cfg"}
 		if c.Thorough() {
-			hcfgs = []string{"NestedIndex_enum_thorough.cfg", "NestedIndex_enum_quick1.cfg"}
+			hcfgs = []string{"NestedIndex_enum_thorough.cfg", "NestedIndex_enum_thorough1.cfg"}
 		}
 		for _, h := range hcfgs {
 			if err := r.engineAHistory(h, c.Pick(2, 3)); err != nil {
